@@ -1,0 +1,26 @@
+//go:build verif
+
+// Verification contracts for the segment writer and the restore scanner, functional part (C07; comment-only; read by
+// /verif/govc). This file contains no executable code. Blocks marked only_for are read only when C07 is checked
+// (the same functions carry C34 / C04 / C02 clauses in zz_verif_contracts.go).
+// kvGroup / kvPayload / kvUnzigzag: /verif/spec/kafka_record.spec (one definition for all decoders).
+
+package storage
+
+// ---- restore scanner: varint layer ----
+//@ func readVarint
+//@   only_for C07
+//@   bitprecise
+//@   ensures [C07.varlong_reads_one_group] err == nil ==> kvGroup(reader, old(brPos(reader)), brPos(reader) - old(brPos(reader))) && brPos(reader) - old(brPos(reader)) <= 10
+//@   ensures [C07.varlong_value_1] err == nil && brPos(reader) - old(brPos(reader)) == 1 && kvPayload(reader, old(brPos(reader)), 1) < 18446744073709551616 ==> mathint(result0) == kvUnzigzag(kvPayload(reader, old(brPos(reader)), 1))
+//@   ensures [C07.varlong_value_2] err == nil && brPos(reader) - old(brPos(reader)) == 2 && kvPayload(reader, old(brPos(reader)), 2) < 18446744073709551616 ==> mathint(result0) == kvUnzigzag(kvPayload(reader, old(brPos(reader)), 2))
+//@   ensures [C07.varlong_value_3] err == nil && brPos(reader) - old(brPos(reader)) == 3 && kvPayload(reader, old(brPos(reader)), 3) < 18446744073709551616 ==> mathint(result0) == kvUnzigzag(kvPayload(reader, old(brPos(reader)), 3))
+//@   ensures [C07.varlong_value_4] err == nil && brPos(reader) - old(brPos(reader)) == 4 && kvPayload(reader, old(brPos(reader)), 4) < 18446744073709551616 ==> mathint(result0) == kvUnzigzag(kvPayload(reader, old(brPos(reader)), 4))
+//@   ensures [C07.varlong_value_5] err == nil && brPos(reader) - old(brPos(reader)) == 5 && kvPayload(reader, old(brPos(reader)), 5) < 18446744073709551616 ==> mathint(result0) == kvUnzigzag(kvPayload(reader, old(brPos(reader)), 5))
+//@   ensures [C07.varlong_value_6] err == nil && brPos(reader) - old(brPos(reader)) == 6 && kvPayload(reader, old(brPos(reader)), 6) < 18446744073709551616 ==> mathint(result0) == kvUnzigzag(kvPayload(reader, old(brPos(reader)), 6))
+//@   ensures [C07.varlong_value_7] err == nil && brPos(reader) - old(brPos(reader)) == 7 && kvPayload(reader, old(brPos(reader)), 7) < 18446744073709551616 ==> mathint(result0) == kvUnzigzag(kvPayload(reader, old(brPos(reader)), 7))
+//@   ensures [C07.varlong_value_8] err == nil && brPos(reader) - old(brPos(reader)) == 8 && kvPayload(reader, old(brPos(reader)), 8) < 18446744073709551616 ==> mathint(result0) == kvUnzigzag(kvPayload(reader, old(brPos(reader)), 8))
+//@   ensures [C07.varlong_value_9] err == nil && brPos(reader) - old(brPos(reader)) == 9 && kvPayload(reader, old(brPos(reader)), 9) < 18446744073709551616 ==> mathint(result0) == kvUnzigzag(kvPayload(reader, old(brPos(reader)), 9))
+//@   ensures [C07.varlong_value_10] err == nil && brPos(reader) - old(brPos(reader)) == 10 && kvPayload(reader, old(brPos(reader)), 10) < 18446744073709551616 ==> mathint(result0) == kvUnzigzag(kvPayload(reader, old(brPos(reader)), 10))
+//@   ensures [C07.varlong_rejects_only_truncated_or_overlong] err != nil ==> (brPos(reader) == brLen(reader) || brPos(reader) - old(brPos(reader)) >= 10) && (forall i int :: old(brPos(reader)) <= i && i < brPos(reader) ==> brAt(reader, i) >= 128)
+//@   loop 1 invariant [C07.varlong_inv] shift == 7 * (brPos(reader) - old(brPos(reader))) && brPos(reader) - old(brPos(reader)) <= 9 && (forall i int :: old(brPos(reader)) <= i && i < brPos(reader) ==> brAt(reader, i) >= 128) && mathint(value) == kvPayload(reader, old(brPos(reader)), brPos(reader) - old(brPos(reader))) && 0 <= mathint(value) && mathint(value) < (1 << shift)
